@@ -308,7 +308,7 @@ def volume(cellvecs: NDArray[float]) -> float:
     if nvecs == 2:
         return np.linalg.norm(np.cross(cellvecs[0], cellvecs[1]))
     if nvecs == 3:
-        return np.linalg.det(cellvecs)
+        return abs(np.linalg.det(cellvecs))
     raise ValueError("Argument cellvecs should be of shape (x, 3), where x is in {1, 2, 3}")
 
 
